@@ -16,6 +16,15 @@ def prepare(ctx):
 
 def ops_with_dump(rng, n, **kw):
     ops = rand_ops(rng, n, **kw)
+    # blocks the tracer has never seen (obtained from the wrapped allocator directly, as before a tracer installed
+    # "midstream"), later resized / released through it like any other block (MemTraceAbs!AcqOutside)
+    if rng.random() < 0.4:
+        for _ in range(rng.randint(1, 3)):
+            s = rng.randrange(16)
+            at = rng.randrange(len(ops) + 1)
+            ops.insert(at, "U%d:%d" % (s, rng.choice([1, 16, 100, 512, 513, 5000])))
+            follow = rng.choice(["R%d:%d" % (s, rng.choice([1, 64, 100, 600, 5000, 0])), "F%d" % s, "Q"])
+            ops.insert(rng.randint(at + 1, len(ops)), follow)
     for _ in range(rng.choice([0, 1, 1, 2])):
         ops.insert(rng.randrange(len(ops) + 1), rng.choice(["D", "Q"]))
     return ops
